@@ -15,17 +15,24 @@ Proved:
   the order of the faces (`mask_inside_trimesh`).
 * for a single tetrahedron with outward faces every observer strictly inside is found inside by `mask_inside_trimesh`,
   unless its test ray comes within the pass-through tolerance of an edge — and that exception is real.
-* `check_selfintersecting` (`get_intersecting_triangles` / `segments_intersect_facets`, ported in Model/MeshIntersect.lean with
-  the float32 cast, the k-d tree ball query and the absolute `eps` as written; tied by the `selfint` stream), in exact
-  arithmetic: the segment/facet primitive is SOUND (a reported pair has a common point, even one inside the open segment and
-  the facet's relative interior) and COMPLETE for proper crossings whose end points are farther than `eps` from the facet's
-  plane; the report is reindexed by a permutation of the face list, unchanged by a translation, and unchanged by a common
-  length factor applied to vertices, `r` AND `eps` — with `eps` held at its absolute default 1e-6 unit invariance fails
-  (witness proved, reproduced on the real code).  The test is NOT complete as a whole (`segfacet_misses_edge_crossing`; the radius case by reproducer on the real code): crossings
-  through an edge or a vertex of the other facet, end points within `eps` of the plane, and pairs of facets whose centroids
-  are farther apart than 1.5 × the largest corner distance are never reported.
-/- FULL: also "check_selfintersecting reports exactly the self-intersecting meshes" (false of the code: Stella octangula,
-   two spikes; see the replays) and "consistent => all faces outwards" (needs: the ray test equals the geometric
+* `check_selfintersecting` (`get_intersecting_triangles` / `segments_intersect_facets` AFTER the repair — a zero signed volume
+  fits both signs, segments starting or ending in a corner of the facet are skipped, `r_factor = 2.0`, all lengths in units of
+  the mesh size before the float32 cast; ported in Model/MeshIntersect.lean, tied by the `selfint` stream), in exact
+  arithmetic: the segment/facet primitive reports a pair EXACTLY when both end points are farther than `eps` from the facet's
+  plane and the segment has a point in common with the CLOSED facet (`segfacet_iff_closed`; hence sound, and complete for
+  crossings through the interior, an edge or a corner — the crossing the old code missed is reported,
+  `segfacet_reports_edge_crossing`); the corner mask never changes a verdict in exact arithmetic; the report is reindexed by a
+  permutation of the face list, unchanged by a translation, and unchanged by a common length factor applied to vertices and
+  `r` with `eps` FIXED (`selfint_scale_invariant`, full strength: on a mesh of positive size the function equals the
+  un-normalised one called with `eps · size`, `selfint_eps_is_relative`); the default radius `2 ×` largest corner distance reaches
+  every pair of facets with a common point, so no crossing found by the primitive is lost to the ball query
+  (`selfint_radius_covers`, `selfint_reports_crossing_pair`).  Still NOT reported: a segment that ends within
+  `eps · size` of the facet's plane, even inside the facet (`segfacet_misses_end_in_facet`; an octahedron whose equator lies in
+  a box face: replay).  The primitive on its own keeps an absolute `eps` (`segfacet_not_scale_invariant`).
+/- FULL: also "check_selfintersecting reports exactly the self-intersecting meshes" (false of the code: end points in the
+   plane of the other facet, see above; and not shown: that two facets with a common point always have an edge of one
+   meeting the other with end points off its plane — false in the touching / coplanar cases) and
+   "consistent => all faces outwards" (needs: the ray test equals the geometric
    inside predicate of a closed non-self-intersecting surface away from its faces — not shown; permutation / flip /
    derived-mesh oracle on the real class). -/
 -/
@@ -414,8 +421,8 @@ theorem ray_through_edge_is_not_generic :
   rw [← Kern.unitTetra_eq, Kern.unitTetra_edge_ray_outside] at h
   exact Bool.false_ne_true h
 
-/-! ### `check_selfintersecting`: `segments_intersect_facets` and `get_intersecting_triangles` (Model/MeshIntersect.lean, exact
-arithmetic: rounding function `id`) -/
+/-! ### `check_selfintersecting`: `segments_intersect_facets` and `get_intersecting_triangles` after the repair
+(Model/MeshIntersect.lean, exact arithmetic: rounding function `id`) -/
 
 open Kern in
 /-- C16 (`segments_intersect_facets`, soundness): for any tolerance `eps ≥ 0` a reported (segment, facet) pair has a common
@@ -424,38 +431,75 @@ theorem segfacet_sound (eps : ℝ) (heps : 0 ≤ eps) (s0 s1 : V3 ℝ) (t : Kern
     (h : Kern.segFacet id eps s0 s1 t = true) : ∃ p, Kern.InSegment s0 s1 p ∧ Kern.InTriangle t p :=
   Kern.segFacet_sound_closed heps h
 
-/-- … and the common point can be taken strictly inside the segment and in the relative interior of the facet: the primitive
-reports proper crossings only -/
-theorem segfacet_sound_interior (eps : ℝ) (heps : 0 ≤ eps) (s0 s1 : V3 ℝ) (t : Kern.Tri ℝ)
-    (h : Kern.segFacet id eps s0 s1 t = true) : ∃ p, Kern.InOpenSegment s0 s1 p ∧ Kern.InTriInterior t p :=
+/-- … and the common point can be taken strictly inside the segment (in the closed facet: crossings through an edge or a
+corner of the facet count since the repair) -/
+theorem segfacet_sound_open_segment (eps : ℝ) (heps : 0 ≤ eps) (s0 s1 : V3 ℝ) (t : Kern.Tri ℝ)
+    (h : Kern.segFacet id eps s0 s1 t = true) : ∃ p, Kern.InOpenSegment s0 s1 p ∧ Kern.InTriangle t p :=
   Kern.segFacet_sound heps h
 
 -- non-vacuity: the segment (1/4,1/4,±1) through the facet (0,0,0),(1,0,0),(0,1,0) is reported with the default eps = 1e-6
 example : ∃ p, Kern.InSegment Kern.witS0 Kern.witS1 p ∧ Kern.InTriangle Kern.witT p :=
   segfacet_sound (1 / 1000000) (by norm_num) _ _ _ Kern.wit_segFacet
 
-/-- C16 (`segments_intersect_facets`, completeness for proper crossings): if the open segment meets the relative interior of
-the facet and both end points are farther than `eps` from the facet's plane (as the code measures it), the pair is reported -/
+/-- C16 (`segments_intersect_facets`, completeness): if the segment has a point in common with the CLOSED facet — interior,
+edge or corner — and both end points are farther than `eps` from the facet's plane (as the code measures it), the pair is
+reported -/
+theorem segfacet_complete_closed (eps : ℝ) (heps : 0 ≤ eps) (s0 s1 : V3 ℝ) (t : Kern.Tri ℝ)
+    (h0 : eps < |Kern.planeDist id t s0|) (h1 : eps < |Kern.planeDist id t s1|)
+    (hp : ∃ p, Kern.InSegment s0 s1 p ∧ Kern.InTriangle t p) : Kern.segFacet id eps s0 s1 t = true :=
+  (Kern.segFacet_iff_closed heps s0 s1 t).mpr ⟨h0, h1, hp⟩
+
+/-- the special case the code before the repair already had: proper crossings (open segment, relative interior of the facet) -/
 theorem segfacet_complete_proper (eps : ℝ) (heps : 0 ≤ eps) (s0 s1 : V3 ℝ) (t : Kern.Tri ℝ)
     (h0 : eps < |Kern.planeDist id t s0|) (h1 : eps < |Kern.planeDist id t s1|)
-    (hp : ∃ p, Kern.InOpenSegment s0 s1 p ∧ Kern.InTriInterior t p) : Kern.segFacet id eps s0 s1 t = true :=
-  Kern.segFacet_complete heps h0 h1 hp
+    (hp : ∃ p, Kern.InOpenSegment s0 s1 p ∧ Kern.InTriInterior t p) : Kern.segFacet id eps s0 s1 t = true := by
+  obtain ⟨p, a, b⟩ := hp
+  exact segfacet_complete_closed eps heps s0 s1 t h0 h1 ⟨p, a.closed, b.closed⟩
 
 -- non-vacuity: the hypotheses hold for the witness segment (plane distances ±1, crossing point (1/4,1/4,0) = t0/2 + t1/4 + t2/4)
 example : (1 / 1000000 : ℝ) < |Kern.planeDist id Kern.witT Kern.witS0| ∧ (1 / 1000000 : ℝ) < |Kern.planeDist id Kern.witT Kern.witS1| ∧
-    ∃ p, Kern.InOpenSegment Kern.witS0 Kern.witS1 p ∧ Kern.InTriInterior Kern.witT p := by
+    ∃ p, Kern.InSegment Kern.witS0 Kern.witS1 p ∧ Kern.InTriangle Kern.witT p := by
   refine ⟨by rw [Kern.wit_g0]; norm_num, by rw [Kern.wit_g1]; norm_num, ?_⟩
-  exact segfacet_sound_interior (1 / 1000000) (by norm_num) _ _ _ Kern.wit_segFacet
+  exact segfacet_sound (1 / 1000000) (by norm_num) _ _ _ Kern.wit_segFacet
+
+/-- C16 (`segments_intersect_facets`): **what the repaired primitive decides, exactly** — the pair is reported iff both end
+points are farther than `eps` from the facet's plane and the segment meets the closed facet -/
+theorem segfacet_iff_closed (eps : ℝ) (heps : 0 ≤ eps) (s0 s1 : V3 ℝ) (t : Kern.Tri ℝ) :
+    Kern.segFacet id eps s0 s1 t = true ↔
+      eps < |Kern.planeDist id t s0| ∧ eps < |Kern.planeDist id t s1| ∧ ∃ p, Kern.InSegment s0 s1 p ∧ Kern.InTriangle t p :=
+  Kern.segFacet_iff_closed heps s0 s1 t
+
+-- non-vacuity: both sides hold for the witness
+example : Kern.segFacet id (1 / 1000000) Kern.witS0 Kern.witS1 Kern.witT = true ∧
+    ((1 / 1000000 : ℝ) < |Kern.planeDist id Kern.witT Kern.witS0| ∧ (1 / 1000000 : ℝ) < |Kern.planeDist id Kern.witT Kern.witS1| ∧
+      ∃ p, Kern.InSegment Kern.witS0 Kern.witS1 p ∧ Kern.InTriangle Kern.witT p) :=
+  ⟨Kern.wit_segFacet, (segfacet_iff_closed _ (by norm_num) _ _ _).mp Kern.wit_segFacet⟩
+
+/-- the segment through the midpoint of an edge of the facet — for which the code before the repair reported nothing for any
+`eps` (one signed volume is exactly 0 and `np.sign` made 0 different from ±1; that is how the Stella octangula and a cube united
+with its copy shifted by half the space diagonal passed `check_selfintersecting`) — is reported with the default `eps` -/
+theorem segfacet_reports_edge_crossing :
+    Kern.segFacet id (1 / 1000000) (⟨1 / 2, 0, 1⟩ : V3 ℝ) ⟨1 / 2, 0, -1⟩ (⟨0, 0, 0⟩, ⟨1, 0, 0⟩, ⟨0, 1, 0⟩) = true :=
+  Kern.segFacet_edge_crossing (by norm_num) (by norm_num)
+
+/-- the mask `touch` of the repaired code (an end point of the segment has the coordinates of a corner of the facet) never
+changes a verdict in exact arithmetic: such an end point has plane distance 0.  (In float32 that distance is rounding noise
+that exceeds `eps` on needle-shaped facets; without the mask every such neighbour would be reported once zero volumes count.) -/
+theorem segfacet_corner_mask_redundant (eps : ℝ) (heps : 0 ≤ eps) (s0 s1 : V3 ℝ) (t : Kern.Tri ℝ)
+    (h0 : eps < |Kern.planeDist id t s0|) (h1 : eps < |Kern.planeDist id t s1|) : Kern.touchesCorner s0 s1 t = false :=
+  Kern.touchesCorner_false_of_far heps h0 h1
+
+example : Kern.touchesCorner Kern.witS0 Kern.witS1 Kern.witT = false :=
+  segfacet_corner_mask_redundant (1 / 1000000) (by norm_num) _ _ _ (by rw [Kern.wit_g0]; norm_num) (by rw [Kern.wit_g1]; norm_num)
 
 /- FULL: `segfacet_complete` — every segment that has a point in common with the closed facet is reported.  False: -/
-/-- the exclusions of `segfacet_complete_proper` are necessary: a segment through the midpoint of an edge of the facet meets
-the facet and is reported for NO `eps` (one signed volume is exactly 0 and `np.sign` makes 0 different from ±1).  This is how
-the Stella octangula (two interpenetrating tetrahedra whose edges cross at their midpoints) and a cube united with its copy
-shifted by half the space diagonal pass `check_selfintersecting` on the real code -/
-theorem segfacet_misses_edge_crossing :
-    ∃ (s0 s1 : V3 ℝ) (t : Kern.Tri ℝ) (p : V3 ℝ), Kern.InSegment s0 s1 p ∧ Kern.InTriangle t p ∧
-      ∀ eps : ℝ, Kern.segFacet id eps s0 s1 t = false :=
-  Kern.segFacet_misses_edge_crossing
+/-- the exclusion of `segfacet_complete_closed` is necessary: a segment that ENDS in the relative interior of the facet meets
+it and is reported for NO `eps ≥ 0`.  On the real code: an octahedron whose equator lies in a face of a box (its lower half
+inside the box) passes `check_selfintersecting` -/
+theorem segfacet_misses_end_in_facet :
+    ∃ (s0 s1 : V3 ℝ) (t : Kern.Tri ℝ) (p : V3 ℝ), Kern.InSegment s0 s1 p ∧ Kern.InTriInterior t p ∧
+      ∀ eps : ℝ, 0 ≤ eps → Kern.segFacet id eps s0 s1 t = false :=
+  Kern.segFacet_misses_end_in_facet
 
 /-- C16 (`get_intersecting_triangles`): translating all vertices does not change the report (index triples in range) -/
 theorem selfint_translation_invariant (d : V3 ℝ) (r : Option ℝ) (rFactor eps : ℝ) (verts : List (V3 ℝ))
@@ -464,7 +508,7 @@ theorem selfint_translation_invariant (d : V3 ℝ) (r : Option ℝ) (rFactor eps
       = Kern.getIntersectingTriangles id r rFactor eps verts tris :=
   Kern.getIntersectingTriangles_shift d r rFactor eps verts tris h
 
-example : 0 ∈ Kern.getIntersectingTriangles id (some 10) (3 / 2) (1 / 1000000) (Kern.witVerts.map (· + (⟨7, -2, 3⟩ : V3 ℝ))) Kern.witTris := by
+example : 0 ∈ Kern.getIntersectingTriangles id (some 10) 2 (1 / 1000000) (Kern.witVerts.map (· + (⟨7, -2, 3⟩ : V3 ℝ))) Kern.witTris := by
   rw [selfint_translation_invariant _ _ _ _ _ _ Kern.witTris_inRange]; exact Kern.wit_mesh_reported.1
 
 /-- C16 (`get_intersecting_triangles`): reading the triangle list in the order σ 0, σ 1, … reindexes the report by σ -/
@@ -474,14 +518,14 @@ theorem selfint_face_order_invariant (r : Option ℝ) (rFactor eps : ℝ) (verts
       ↔ σ k ∈ Kern.getIntersectingTriangles id r rFactor eps verts tris :=
   Kern.getIntersectingTriangles_perm r rFactor eps verts tris σ hσ k
 
-/-- … and the verdict of `TriangularMesh.check_selfintersecting` (defaults r=None, r_factor=1.5, eps=1e-6) is the same -/
+/-- … and the verdict of `TriangularMesh.check_selfintersecting` (defaults r=None, r_factor=2.0, eps=1e-6) is the same -/
 theorem selfint_verdict_face_order_invariant (verts : List (V3 ℝ)) (tris : List (Nat × Nat × Nat))
     (σ : Equiv.Perm ℕ) (hσ : ∀ i, σ i < tris.length ↔ i < tris.length) :
     Kern.selfIntersecting id verts (Kern.permuteTris σ tris) = Kern.selfIntersecting id verts tris :=
   Kern.selfIntersecting_perm verts tris σ hσ
 
 -- non-vacuity: the two faces of the witness mesh swapped; face 1 of the original is face 0 of the swapped list
-example : 0 ∈ Kern.getIntersectingTriangles id (some 10) (3 / 2) (1 / 1000000) Kern.witVerts
+example : 0 ∈ Kern.getIntersectingTriangles id (some 10) 2 (1 / 1000000) Kern.witVerts
     (Kern.permuteTris (Equiv.swap 0 1) Kern.witTris) := by
   rw [selfint_face_order_invariant _ _ _ _ _ (Equiv.swap 0 1)]
   · rw [Equiv.swap_apply_left]; exact Kern.wit_mesh_reported.2
@@ -491,24 +535,79 @@ example : 0 ∈ Kern.getIntersectingTriangles id (some 10) (3 / 2) (1 / 1000000)
     · interval_cases i <;> simp
     · rw [Equiv.swap_apply_of_ne_of_ne (by omega) (by omega)]
 
-/-- C12 / C16 (`get_intersecting_triangles`): vertices, the optional query radius AND `eps` multiplied by the same factor
-`l > 0` give the same report — i.e. the test would be unit-free if `eps` were a relative tolerance -/
-theorem selfint_scale_covariant (l : ℝ) (hl : 0 < l) (r : Option ℝ) (rFactor eps : ℝ) (verts : List (V3 ℝ))
+/-- C12 / C16 (`get_intersecting_triangles`, **unit invariance, full strength**): all lengths — the vertices and, when given,
+the query radius — multiplied by the same factor `l > 0`, with the code's `eps` UNCHANGED, give the same report.  (Before the
+repair this needed `eps` multiplied by `l` as well.) -/
+theorem selfint_scale_invariant (l : ℝ) (hl : 0 < l) (r : Option ℝ) (rFactor eps : ℝ) (verts : List (V3 ℝ))
     (tris : List (Nat × Nat × Nat)) (h : Kern.TrisInRange verts.length tris) :
-    Kern.getIntersectingTriangles id (r.map (l * ·)) rFactor (l * eps) (verts.map (Kern.vs l)) tris
+    Kern.getIntersectingTriangles id (r.map (l * ·)) rFactor eps (verts.map (Kern.vs l)) tris
       = Kern.getIntersectingTriangles id r rFactor eps verts tris :=
   Kern.getIntersectingTriangles_scale l hl r rFactor eps verts tris h
 
-example : 1 ∈ Kern.getIntersectingTriangles id (some (1000 * 10)) (3 / 2) (1000 * (1 / 1000000)) (Kern.witVerts.map (Kern.vs 1000)) Kern.witTris := by
-  have h := selfint_scale_covariant 1000 (by norm_num) (some 10) (3 / 2) (1 / 1000000) _ _ Kern.witTris_inRange
+-- non-vacuity: the witness mesh in units a million times smaller (1e-6 of the size), eps = 1e-6 as before: still reported
+example : 1 ∈ Kern.getIntersectingTriangles id (some (1 / 1000000 * 10)) 2 (1 / 1000000) (Kern.witVerts.map (Kern.vs (1 / 1000000))) Kern.witTris := by
+  have h := selfint_scale_invariant (1 / 1000000) (by norm_num) (some 10) 2 (1 / 1000000) _ _ Kern.witTris_inRange
   simp only [Option.map_some] at h
   rw [h]; exact Kern.wit_mesh_reported.2
 
-/- FULL (C12 flavour): `selfint_scale_invariant` — all lengths × l > 0 with the code's fixed `eps = 1e-6` gives the same verdict.
-   False: -/
-/-- the absolute `eps` breaks unit invariance already for the primitive: the segment (1/4,1/4,±1) through the facet
-(0,0,0),(1,0,0),(0,1,0) is reported with the default `eps = 1e-6`; the same configuration at 1e-7 of the size is not
-(reproduced on the real code: a spike through a box face is reported at size 1, not at size 1e-6) -/
+/-- … and the verdict of `TriangularMesh.check_selfintersecting` with it -/
+theorem selfint_verdict_scale_invariant (l : ℝ) (hl : 0 < l) (verts : List (V3 ℝ)) (tris : List (Nat × Nat × Nat))
+    (h : Kern.TrisInRange verts.length tris) :
+    Kern.selfIntersecting id (verts.map (Kern.vs l)) tris = Kern.selfIntersecting id verts tris := by
+  have := selfint_scale_invariant l hl none (Kern.n 2) (Kern.n 1 / Kern.n 1000000) verts tris h
+  simp only [Option.map_none] at this
+  unfold Kern.selfIntersecting Kern.selfIntersectingFaces
+  rw [this]
+
+/-- C12 / C16: how the repair achieves it — on a mesh of positive size the repaired function is the function as it was
+before the normalisation (`getIntersectingTrianglesCore`: float32 cast, centroids, ball query, edge tests on the vertices
+as given) called with the tolerance `size · eps`: `eps` is a fraction of the mesh size -/
+theorem selfint_eps_is_relative (r : Option ℝ) (rFactor eps : ℝ) (verts : List (V3 ℝ)) (tris : List (Nat × Nat × Nat))
+    (h : Kern.TrisInRange verts.length tris) (hs : 0 < Kern.vertsSize verts) :
+    Kern.getIntersectingTriangles id r rFactor eps verts tris
+      = Kern.getIntersectingTrianglesCore id r rFactor (Kern.vertsSize verts * eps) verts tris :=
+  Kern.getIntersectingTriangles_eq_core r rFactor eps verts tris h hs
+
+-- non-vacuity: the witness mesh has size 5
+example : 0 < Kern.vertsSize Kern.witVerts := by rw [Kern.witVerts_size]; norm_num
+
+/-- a mesh collapsed to a point (size 0, the case the code does not normalise): nothing is reported -/
+theorem selfint_point_mesh_clean (r : Option ℝ) (rFactor eps : ℝ) (verts : List (V3 ℝ)) (tris : List (Nat × Nat × Nat))
+    (h : Kern.TrisInRange verts.length tris) (hs : ¬ 0 < Kern.vertsSize verts) :
+    Kern.getIntersectingTriangles id r rFactor eps verts tris = [] := by
+  simp only [Kern.getIntersectingTriangles, Kern.normaliseVerts_nonpos r verts hs]
+  exact Kern.getIntersectingTrianglesCore_degenerate r rFactor eps verts tris h hs
+
+example : ¬ 0 < Kern.vertsSize ([⟨1, 2, 3⟩, ⟨1, 2, 3⟩] : List (V3 ℝ)) := by
+  simp [Kern.vertsSize, Kern.vertsMax, Kern.vertsMin, Kern.vMax, Kern.vMin, Kern.npMax_real, Kern.npMin_real]
+
+/-- C16 (`get_intersecting_triangles`, the query radius): two facets of the mesh that have a point in common have their
+centroids within 2 × the largest corner–centroid distance — the default radius (`r_factor = 2.0`) of the repaired code, so the
+k-d tree offers every intersecting pair to the edge tests.  (With the former 1.5 it did not: two spikes, two needles.) -/
+theorem selfint_radius_covers (facets : List (Kern.Tri ℝ)) (t1 t2 : Kern.Tri ℝ) (h1 : t1 ∈ facets) (h2 : t2 ∈ facets) (p : V3 ℝ)
+    (hp1 : Kern.InTriangle t1 p) (hp2 : Kern.InTriangle t2 p) :
+    Kern.withinBall (2 * Kern.maxCornerDist id facets) (Kern.facetCentre id t2) (Kern.facetCentre id t1) = true :=
+  Kern.withinBall_of_common_point facets t1 t2 h1 h2 p hp1 hp2
+
+/-- C16 (`get_intersecting_triangles`, default radius): no crossing found by the primitive is lost to the ball query — if an
+edge of facet `i` meets the closed facet `j ≠ i` with both end points farther than `eps` from its plane (`edgesHit`, by
+`segfacet_iff_closed`), both facets are in the report -/
+theorem selfint_reports_crossing_pair (eps : ℝ) (heps : 0 ≤ eps) (facets : List (Kern.Tri ℝ)) (i j : ℕ) (hi : i < facets.length)
+    (hj : j < facets.length) (hne : i ≠ j)
+    (hit : Kern.edgesHit id eps (facets.getD i Kern.zeroTri) (facets.getD j Kern.zeroTri) = true) :
+    i ∈ Kern.intersectingFacets id none 2 eps facets ∧ j ∈ Kern.intersectingFacets id none 2 eps facets :=
+  Kern.intersectingFacets_complete heps facets i j hi hj hne hit
+
+-- non-vacuity: the two facets of the witness mesh, no radius given
+example : 1 ∈ Kern.intersectingFacets id none 2 (1 / 1000000) [Kern.witT, (Kern.witS0, Kern.witS1, (⟨5, 5, 0⟩ : V3 ℝ))] ∧
+    0 ∈ Kern.intersectingFacets id none 2 (1 / 1000000) [Kern.witT, (Kern.witS0, Kern.witS1, (⟨5, 5, 0⟩ : V3 ℝ))] := by
+  apply selfint_reports_crossing_pair _ (by norm_num) _ 1 0 (by simp) (by simp) (by norm_num)
+  simp only [Kern.edgesHit, List.getD_cons_succ, List.getD_cons_zero, Kern.wit_segFacet, if_true]
+  simp
+
+/-- the primitive `segments_intersect_facets` on its own keeps its absolute `eps` (only `get_intersecting_triangles`
+normalises): the segment (1/4,1/4,±1) through the facet (0,0,0),(1,0,0),(0,1,0) is reported with `eps = 1e-6`; the same
+configuration at 1e-7 of the size is not -/
 theorem segfacet_not_scale_invariant :
     ∃ (l : ℝ) (s0 s1 : V3 ℝ) (t : Kern.Tri ℝ), 0 < l ∧ Kern.segFacet id (1 / 1000000) s0 s1 t = true ∧
       Kern.segFacet id (1 / 1000000) (Kern.vs l s0) (Kern.vs l s1) (Kern.triScale l t) = false :=
